@@ -215,6 +215,7 @@ const (
 	kfSimpleAsInt  = "simple-as-int"
 	kfTextKey      = "text-key-as-int"
 	kfHugeKey      = "huge-key-rejected"
+	kfUintFold     = "uint-key-folded"
 )
 
 // textKeyCollides: does a TEXT key spell (in decimal) an integer key of the
@@ -456,7 +457,7 @@ func c04Judge(in c04In, st *Stats) (string, string) {
 	for _, mu := range in.Muts {
 		if mu.Known != "" {
 			ids[mu.Known] = true
-			if mu.Known == kfTextKey || mu.Known == kfHugeKey {
+			if mu.Known == kfTextKey || mu.Known == kfHugeKey || mu.Known == kfUintFold {
 				loose = true
 			}
 		} else if mu.Eff == effNonConf {
@@ -651,9 +652,33 @@ func addUnknownKeys(t *rapid.T, p Prof, root *icbor.Node) (int, []wmut) {
 				muts = append(muts, wmut{fmt.Sprintf("text key %q", txt), "text-key-spelling-an-integer-key", effNeutral, kfTextKey})
 			}
 		case 1:
-			key = rapid.SampledFrom([]*icbor.Node{icbor.U(1 << 63), icbor.U(1<<64 - 1), icbor.NintArg(1<<64 - 1), icbor.NintArg(1 << 63), icbor.U(1<<63 - 1), icbor.NintArg(1<<63 - 1)}).Draw(t, "extra.hugekey")
-			if _, fits := key.Int(); !fits {
+			key = rapid.SampledFrom([]*icbor.Node{icbor.U(1 << 63), icbor.U(1<<64 - 1), icbor.U(1<<64 - 3), icbor.U(1<<64 - 75001), icbor.NintArg(1<<64 - 1), icbor.NintArg(1 << 63), icbor.U(1<<63 - 1), icbor.NintArg(1<<63 - 1)}).Draw(t, "extra.hugekey")
+			// (an UNSIGNED label of 2^63 or more is ignored like any other
+			// unknown label by the unchanged library; only negative labels
+			// below -2^63 make it fail: the known finding is about those)
+			if _, fits := key.Int(); !fits && key.Kind == icbor.KNint {
 				muts = append(muts, wmut{"unknown key " + icbor.Diag(key), "integer-key-outside-int64", effNeutral, kfHugeKey})
+			}
+			if key.Kind == icbor.KUint && key.U >= 1<<63 && textKeyCollides(p, fmt.Sprint(int64(key.U)), false) {
+				// an unsigned label that, cut to 64 bits and read as SIGNED,
+				// is one of the profile's (negative) keys
+				muts = append(muts, wmut{"unknown key " + icbor.Diag(key), "unsigned-key-congruent-to-a-claim-key", effNeutral, kfUintFold})
+			}
+			if key.Kind == icbor.KUint && key.U >= 1<<63 && genBool.Draw(t, "extra.congruent") {
+				// ... together with the DIFFERENT label that is congruent to
+				// it modulo 2^64 (18446744073709551615 and -1): two unknown
+				// labels, both to be ignored
+				twin := icbor.NintArg(^key.U)
+				present := false
+				for _, pr := range root.Pairs {
+					if icbor.Equal(icbor.Canonical(pr[0]), twin) {
+						present = true
+					}
+				}
+				if !present {
+					root.Pairs = append(root.Pairs, icbor.P(twin, drawUnknownValue(t)))
+					added++
+				}
 			}
 		case 2, 3:
 			// any key number in the neighbourhood of the registered CWT /
